@@ -57,7 +57,31 @@ def sc_text(sc):
         t += "pre " + " ".join(sc["pre"]) + "\n"
     for p in sc["progs"]:
         t += "prog " + " ".join(p) + "\n"
+    if sc.get("fault"):
+        t += "fault %d %d %s %d\n" % tuple(sc["fault"])
     return t
+
+
+# user functors of the harness -> fault kinds of the Lean models (`arm kind n`); the others are exercised by the monitors only
+FAULT_KIND = {"sl": {"cmp": 1, "ctor": 3, "alloc": 4}, "uo": {"eq": 1, "hash": 2}}
+
+
+def fault_modelled(sc, fault):
+    """can the Lean model replay a run in which this fault fired?"""
+    if not fault:
+        return True
+    t, oi, what, k = fault
+    uo = sc["kind"] in UO_KINDS
+    if what not in FAULT_KIND["uo" if uo else "sl"]:
+        return False
+    name = sc["progs"][t][oi].split(":")[0]
+    if not modelled(sc["kind"], name) or name == "trav":
+        return False
+    if uo:
+        return not (name == "cnt" and is_multi(sc["kind"]) and what == "eq")     # the equal_range tail is not modelled
+    if what == "alloc" and k > 2:
+        return False
+    return True
 
 
 def hash_of(sc, k):
@@ -115,6 +139,15 @@ def parse_runs(out):
             cur["log"].append(("e", int(w[1]), w[2], w[3], w[4], w[5], w[6], w[7] if len(w) > 7 else ""))
         elif w[0] == "o":
             cur["log"].append(("o", int(w[1]), w[2], int(w[3])))
+        elif w[0] == "x":
+            cur["log"].append(("x", int(w[1]), w[2], int(w[3])))
+        elif w[0] == "calls":
+            cur.setdefault("calls", {})[(int(w[1]), int(w[2]))] = {kv.split("=")[0]: int(kv.split("=")[1]) for kv in w[3:]}
+        elif w[0] == "fault":
+            cur["fault"] = [int(w[1]), int(w[2]), w[3], int(w[4])]
+            cur["fired"] = w[5] == "1"
+        elif w[0] == "dead":
+            cur["dead"] = w[1:]
         elif w[0] == "res":
             cur["res"][(int(w[1]), int(w[2]))] = w[3:]
         elif w[0] == "fin":
@@ -189,8 +222,16 @@ def replay_on_model(sc, run):
     else:
         lines.append("cfg %d %d" % (1 if is_multi(kind) else 0, 32))
     T = len(sc["progs"])
-    for p in sc["progs"]:
-        lines.append("prog " + " ".join(model_op(sc, w) for w in p if modelled(kind, w.split(":")[0])))
+    fault = run.get("fault") if run.get("fired") else None
+    for ti, p in enumerate(sc["progs"]):
+        mo = []
+        for oi, w in enumerate(p):
+            if not modelled(kind, w.split(":")[0]):
+                continue
+            if fault and fault[0] == ti and fault[1] == oi:
+                mo.append("arm:%d:%d" % (FAULT_KIND["uo" if uo else "sl"][fault[2]], fault[3]))
+            mo.append(model_op(sc, w))
+        lines.append("prog " + " ".join(mo))
     if sc.get("pre"):
         lines.append("pre " + " ".join(model_op(sc, w) for w in sc["pre"]))
     nhead = len(lines)
@@ -209,6 +250,14 @@ def replay_on_model(sc, run):
                 lines.append("fin %d" % t)
             if be == "b" and uo and name == "mlf":
                 # max_load_factor(f) is a plain store: no traced access; it happens right here in the global order
+                evs.append(("silent", t))
+                lines.append("s %d" % t)
+            continue
+        if rec[0] == "x":
+            # the call that threw.  A comparator / key_equal call follows the load of the same model step (the model reports `threw`
+            # with that access); the hasher, the element constructor and the allocation of the value node precede every access
+            _, t, what, kk = rec
+            if what in ("hash", "ctor") or (what == "alloc" and kk == 1):
                 evs.append(("silent", t))
                 lines.append("s %d" % t)
             continue
@@ -232,7 +281,11 @@ def replay_on_model(sc, run):
     mops = {t: [i for i, w in enumerate(sc["progs"][t]) if modelled(kind, w.split(":")[0])] for t in range(T)}
     orders_bad = []
 
+    linked_then = {}          # skip list: the model reports the link of an insert (`ins 1`) that the implementation left by an exception
+
     def check_result(t, mtxt):
+        if mtxt.split() == ["threw"] and linked_then.pop(t, None):
+            return None           # ... and this is the exception (after the level-0 link): one operation, two model reports
         if opidx[t] >= len(mops[t]):
             return "thread %d: model completed more operations than the program has" % t
         oi = mops[t][opidx[t]]
@@ -242,6 +295,15 @@ def replay_on_model(sc, run):
             return "thread %d op %d: model completed it (%s) but the implementation did not" % (t, oi, mtxt)
         mres = mtxt.split()
         name = ires[0]
+        if len(ires) > 2 and ires[2] == "2" and name in ("ins", "emp") and mres == ["ins", "1"] and not uo:
+            linked_then[t] = True
+            return None
+        if len(ires) > 2 and ires[2] == "2" and name != "trav" and name != "cnt" and name != "lb":
+            return None if mres == ["threw"] else "thread %d op %d (%s): the implementation left the operation by the injected exception, model %s" % (t, oi, sc["progs"][t][oi], mtxt)
+        if len(ires) > 2 and ires[2] == "2" and name == "cnt" and fault and fault[0] == t and fault[1] == oi:
+            return None if mres == ["threw"] else "thread %d op %d (%s): the implementation left the operation by the injected exception, model %s" % (t, oi, sc["progs"][t][oi], mtxt)
+        if mres == ["threw"]:
+            return "thread %d op %d (%s): the model leaves the operation by an exception, the implementation returned %s" % (t, oi, sc["progs"][t][oi], " ".join(ires[2:]))
         if mres == ["touch"]:
             if not (name == "cnt" and uo and is_multi(kind)):
                 return "thread %d op %d: model ran prepare_bucket only for a %s" % (t, oi, name)
@@ -274,7 +336,7 @@ def replay_on_model(sc, run):
             t = rec[1]
             parts = out[i].split(" | ")
             if parts[0] != "none" or len(parts) < 2:
-                return "thread %d: max_load_factor(f) performs no atomic access, model `%s`" % (t, out[i]), {}
+                return "thread %d: an operation that performs no atomic access (max_load_factor(f), or an exception before the first access), model `%s`" % (t, out[i]), {}
             bad = check_result(t, parts[1])
             if bad:
                 return bad, {}
@@ -302,6 +364,8 @@ def replay_on_model(sc, run):
             bad = check_result(t, parts[1])
             if bad:
                 return bad, {}
+    if linked_then:
+        return "thread %d: the implementation left an insert by an exception after the link, the model completed it" % list(linked_then)[0], {}
     for t in range(T):
         if opidx[t] != len([oi for oi in mops[t] if (t, oi) in run["res"]]):
             return "thread %d: implementation completed %d modelled operations, model %d" % (
@@ -315,8 +379,12 @@ def replay_on_model(sc, run):
     aux = run["aux"].get("bcfin" if uo else "maxhfin")
     if aux is not None and aux != sm.group(3):
         return "final %s: implementation %s, model %s" % (sm.group(2), aux, sm.group(3)), {}
-    if int(sm.group(4)) != len(run["fin"]):
+    # (an insert that is left by an exception after its node was linked does not count the element: my_size is one short)
+    post_link = 1 if (fault and not uo and int(sm.group(4)) + 1 == len(run["fin"])) else 0
+    if int(sm.group(4)) + post_link != len(run["fin"]):
         return "model size %s differs from the number of elements %d" % (sm.group(4), len(run["fin"])), {}
+    if "ledger 1" not in st:
+        return "model: a freed node is linked, or a node was freed twice (insert_throw_safe does not hold for the regenerated throw policy)", {}
     if not uo and sm.group(6) != "1":
         return "model: a level is not a sub-sequence of the level below", {}
     # the nodes that were identified with each other (by order of first appearance) must carry the same keys
@@ -335,6 +403,12 @@ def replay_on_model(sc, run):
                 return "list head identified with model node %s" % mn, {}
             continue
         mk = mnodes[mn]
+        # the allocator ledger: a node that appears in the trace is dead in the implementation iff the model has freed it
+        idead = n in run.get("dead", [])
+        mdead = mk[-1] == "1"
+        if idead != mdead:
+            return "node n%s: %s by the implementation during the run, %s by the model" % (
+                n, "deallocated" if idead else "not deallocated", "freed" if mdead else "not freed"), {}
         if uo:
             same = inode[0] == mk[0] and (inode[1] == "-" or inode[1] == mk[1])
             if not same and not (inode[0] == REGKEY1 and mk[2] == "0"):      # failed emplace re-initialises its node
@@ -950,8 +1024,10 @@ def report_failure(ck, exes, sc, r, how):
         s2, r2 = shrink_schedule(exe, sc, sched)
         if r2 is not None:
             sched, mon = s2, r2["mon"] or mon
-    ck.counterexample(mon_key(sc, mon), "%s [%s, %s]: %s | threads %s | pre %s | schedule %s" % (
-        sc["kind"], sc.get("family"), how, mon, sc["progs"], sc.get("pre", []), " ".join(sched)),
+    ck.counterexample(mon_key(sc, mon), "%s [%s, %s]: %s | threads %s | pre %s%s | schedule %s" % (
+        sc["kind"], sc.get("family"), how, mon, sc["progs"], sc.get("pre", []),
+        (" | fault: call %d of the %s functor in operation %d of thread %d throws" % (sc["fault"][3], sc["fault"][2], sc["fault"][1], sc["fault"][0])) if sc.get("fault") else "",
+        " ".join(sched)),
         {"engine": "E-SHIM", "harness": "uo" if sc["kind"] in UO_KINDS else "sl", "scenario": sc, "schedule": sched,
          "mode": r.get("mode"), "monitor": mon})
 
@@ -1112,6 +1188,12 @@ OBSERVATION_PROBES = [
     ("skip list insert busy-waits (no pause/yield) while the thread that linked the first node has not yet raised my_max_height: "
      "fill_prev_curr_arrays reads max_height 0, so prev = head / next = nullptr and the level-0 CAS fails until the other thread runs",
      {"kind": "omap", "family": "probe", "progs": [["ins:3:3", "find:2"], ["ins:2:3", "find:3"], ["ins:4:2", "lb:3"]]}, "0,0,0,0,0,0,0,1"),
+    ("count() of an ORDERED multi container over-reports as the model says (Props `count_over_reports`: count(5) = 2 with a single 5 ever inserted, "
+     "lo = 1, hi = 2): 7 is linked between 5 and 9 after equal_range() has determined second = 9",
+     {"kind": "omset", "family": "probe", "pre": ["ins:9:1", "ins:5:1"], "progs": [["cnt:5"], ["ins:7:1"]]}, "0,0,0,0,0,1,1,1,1,1,1,1,1,1,0,0"),
+    ("count() of an UNORDERED multi container over-reports likewise: key 7 (same hash as 5) is linked behind the run of 5 after `last` was determined",
+     {"kind": "umset", "family": "probe", "bc": 2, "mlf": (4, 1), "hash": {5: 6, 7: 6}, "pre": ["ins:5"], "progs": [["cnt:5"], ["ins:7"]]},
+     "0,0,0,0,0,0,0,0,0,0,1,1,1,1,1,1,1,1,1,1,1,1,1,1,0,0"),
     ("count() of a multi container = std::distance over equal_range(): an element of another key linked between the two iterators is counted",
      {"kind": "umset", "family": "probe", "bc": 2, "mlf": (4, 1), "hash": {1: 6, 2: 6, 3: 6}, "pre": ["ins:1"],
       "progs": [["ins:1", "ins:2"], ["ins:2", "cnt:1"], ["trav"]]},
@@ -1132,6 +1214,160 @@ def run_probes(ck, exes):
             bad.append((sc, r))
     ck.extra["observation_probes"] = res
     return bad
+
+
+# ------------------------------------------------------------------------------------------------------
+# fault schedules: user functors that throw at their k-th call
+# ------------------------------------------------------------------------------------------------------
+# guided (`fsweep`): thread 0 is held at every scheduling point while the others complete, then every fault position of thread 0
+FAULT_CORPUS = [
+    # a taller neighbour is linked on level 1 between thread 0's search and its level-1 CAS: the re-search calls the comparator AFTER the level-0 link
+    {"kind": "oset", "family": "fault", "pre": ["ins:10:3", "ins:50:3"], "progs": [["ins:30:2", "find:30", "trav"], ["ins:20:2"]]},
+    {"kind": "omset", "family": "fault", "pre": ["ins:30:3"], "progs": [["ins:30:3", "find:30", "ins:30:1"], ["ins:30:2"], ["ins:30:3"]]},
+    {"kind": "omap", "family": "fault", "pre": [], "progs": [["ins:5:3", "find:5"], ["ins:4:4", "ins:6:2"]]},
+    {"kind": "ommap", "family": "fault", "pre": ["ins:10:2", "ins:20:2"], "progs": [["emp:15:4", "lb:15", "cnt:15"], ["emp:15:4"], ["ins:12:3"]]},
+    # colliding order keys (key_equal is called), same-bucket inserts between the search and the CAS, table doubling, first access to a bucket
+    {"kind": "uset", "family": "fault", "bc": 2, "mlf": (1, 1), "hash": {1: 6, 2: 6, 3: 6, 4: 2}, "pre": ["ins:1"],
+     "progs": [["ins:2", "find:2", "emp:3", "trav"], ["ins:3", "ins:4", "emp:2"]]},
+    {"kind": "ummap", "family": "fault", "bc": 4, "mlf": (4, 1), "hash": {1: 5, 2: 5, 3: 13, 4: 21}, "pre": [],
+     "progs": [["ins:1", "ins:2", "cnt:1"], ["ins:1", "ins:3"], ["emp:4"]]},
+    {"kind": "umap", "family": "fault", "bc": 8, "mlf": (4, 1), "pre": ["find:2"], "progs": [["emp:6", "find:10", "ins:14"], ["ins:2"], ["ins:10"]]},
+]
+
+
+def run_fault_schedules(ck, exes, stats):
+    """-> (bad_corr, bad_mon).  Every fault run is monitored by the harness (dead node reachable at the moment of a deallocation / at
+    quiescence, double deallocation, contents = successful inserts + inserts that threw after linking, later operations work,
+    clear() + destructor free every node exactly once); the printed ones are replayed on the Lean models (`arm kind n`)."""
+    quick = ck.tier == "quick"
+    rng = ck.rng
+    bad_corr, bad_mon = [], []
+    fs = stats["faults"] = {"runs": 0, "fired": 0, "thrown_after_link": 0, "thrown_before_link_node_leaked": 0, "replayed_on_model": 0,
+                            "monitor_only": 0, "by_functor": {}, "samples": []}
+
+    def one(sc, mode, replay_cap):
+        rc, out, err = run_harness(exe_for(sc, exes), sc, mode, timeout=1500)
+        runs = parse_runs(out)
+        m = re.search(r"summary runs=(\d+) bad=(\d+) obs=(\d+) fired=(\d+) postlink=(\d+) leaks=(\d+)", out)
+        if m:
+            fs["runs"] += int(m.group(1))
+            fs["fired"] += int(m.group(4))
+            fs["thrown_after_link"] += int(m.group(5))
+            fs["thrown_before_link_node_leaked"] += int(m.group(6))
+            ck.evaluations += int(m.group(1))
+            for kv in re.findall(r"(\w+)=(\d+)", out[out.rfind(" byf"):]):
+                fs["by_functor"][kv[0]] = fs["by_functor"].get(kv[0], 0) + int(kv[1])
+        cand = []
+        for r in runs:
+            sc2 = dict(sc)
+            if r.get("fault"):
+                sc2["fault"] = r["fault"]
+            if r["mon"] != "ok":
+                bad_mon.append((sc2, r))
+                continue
+            if r.get("fired"):
+                f = r["fault"]
+                ck.distinct.add(("fault", sc["kind"], f[2], min(f[3], 6), tuple(sorted(o.split(" functor ")[-1][:12] for o in r.get("obs", []) if "exception" in o))))
+                for ob in r.get("obs", []):
+                    if "exception" in ob and len(fs["samples"]) < 4 and not any(x["what"][:60] == ob[:60] for x in fs["samples"]):
+                        fs["samples"].append({"what": ob, "scenario": {k: v for k, v in sc2.items()}, "schedule": " ".join(r["sched"])})
+                if not fault_modelled(sc, f):
+                    fs["monitor_only"] += 1
+                    continue
+            cand.append((sc2, r))
+        if len(cand) > replay_cap:
+            cand = rng.sample(cand, replay_cap)
+        for sc2, r in cand:
+            try:
+                d, st = replay_on_model(sc, r)
+            except BuildError as e:
+                d, st = "model driver failed: %s" % e, {}
+            ck.traces_validated += 1
+            fs["replayed_on_model"] += 1
+            if d:
+                bad_corr.append((sc2, r, d))
+            else:
+                account_run(ck, sc, r, st, stats)
+        if rc not in (0, 1, 3) or not m:
+            bad_mon.append((sc, {"mon": "harness crashed or was killed (rc=%d) %s" % (rc, err[-300:].replace("\n", " ")), "sched": [], "mode": mode}))
+
+    for sc in FAULT_CORPUS:
+        one(sc, ["fsweep", "0", str(1200 if quick else 30000), str(16 if quick else 0), "1"], 40 if quick else 400)
+    # random scenarios of the dangerous families under random schedules, every fault position of every thread (sampled when many)
+    n = 10 if quick else 120
+    scs = [gen_sl(rng, ["tall", "equal", "tall", "random"][i % 4]) for i in range(n)] + \
+          [gen_uo(rng, ["equal", "adjacent", "onebucket", "doubling", "dummyinit"][i % 5]) for i in range(n)]
+    for i, sc in enumerate(scs):
+        seed = ck.seed * 100003 + 7000 + i
+        one(sc, ["frand", str(seed), str(2 if quick else 6), str(24 if quick else 0), str(2 if quick else 6)], 6 if quick else 30)
+    ck.extra["fault_schedules"] = fs
+    return bad_corr, bad_mon
+
+
+# ------------------------------------------------------------------------------------------------------
+# count() of the multi containers: set-level differential with the CAS-list model (Props caslist_count_bounds / count_over_reports)
+# ------------------------------------------------------------------------------------------------------
+def count_differential(ck, exes):
+    """One thread calls count(k), another inserts one element.  For EVERY hold point of the counting thread (it is stopped after j of
+    its scheduling points, the inserter runs to completion, the counter finishes) the real container returns some n; the model
+    (CasList.sys with the `count` operation, driver c12cl) is run the same way for every hold point of ITS counting thread.  The two
+    SETS of possible results must be equal (the step counts differ: bucket / level accesses), every result must lie within the
+    model's proven bounds [lo, hi], and an over-report (n above the number of equivalent elements ever inserted) must be possible on
+    the implementation exactly when it is on the model."""
+    rng = ck.rng
+    quick = ck.tier == "quick"
+    bad, cases, over = [], 0, 0
+    for i in range(8 if quick else 60):
+        kind = ["omset", "umset", "ommap", "ummap"][i % 4]
+        uo = kind in UO_KINDS
+        keys = rng.sample(range(2, 40), 4)
+        k = keys[0]
+        pre = [k] * rng.choice([1, 1, 2]) + rng.sample(keys[1:], rng.randrange(0, 3))
+        rng.shuffle(pre)
+        k2 = rng.choice([k, keys[1], keys[2], keys[3], k + 1, max(1, k - 1)])
+        sc = {"kind": kind, "family": "count", "pre": [], "progs": [["cnt:%d" % k], ["ins:%d%s" % (k2, "" if uo else ":1")]]}
+        if uo:
+            sc["bc"], sc["mlf"] = rng.choice([1, 2, 8]), (4, 1)
+            # colliding hashes make `other key, same order key` possible
+            sc["hash"] = {x: rng.choice([x, x, 6, 6 + (1 << 63)]) for x in set(pre + [k, k2])}
+            sc["pre"] = ["ins:%d" % x for x in pre]
+            okey = lambda x: "%d:%d" % (rev64(hash_of(sc, x)) | 1, x)
+        else:
+            sc["pre"] = ["ins:%d:1" % x for x in pre]
+            okey = lambda x: "%d:0" % (x + 1)
+        rc, out, err = run_harness(exe_for(sc, exes), sc, ["sweep", "0", "400", "1"], timeout=600)
+        runs = parse_runs(out)
+        impl = set()
+        for r in runs:
+            if r["mon"] != "ok":
+                bad.append("%s: monitor %s" % (sc, r["mon"]))
+            v = r["res"].get((0, 0))
+            if v:
+                impl.add(int(v[2]))
+        lines = ["rule %s" % ("before" if uo else "after"), "pre " + " ".join("ins:" + okey(x) for x in pre),
+                 "prog0 count:" + okey(k), "prog1 ins:" + okey(k2)] + ["hold %d" % j for j in range(0, 40)]
+        mo = drv("c12cl", "\n".join(lines) + "\n")[4:]
+        model, lo, hi = set(), None, None
+        for l in mo:
+            w = l.split()
+            if len(w) >= 3 and w[0].isdigit():
+                model.add(int(w[0]))
+                lo = int(w[1]) if lo is None else min(lo, int(w[1]))
+                hi = int(w[2]) if hi is None else max(hi, int(w[2]))
+            if l.endswith("done"):
+                break
+        cases += 1
+        ck.count(len(runs), ("count", kind, tuple(sorted(impl)), k2 == k))
+        nk = pre.count(k) + (1 if k2 == k else 0)
+        if max(impl or [0]) > nk:
+            over += 1
+        if impl != model or not impl or lo is None or min(impl) < lo or max(impl) > hi:
+            bad.append("%s count(%d) vs insert(%d), pre %s%s: implementation results over all hold points %s, model %s (bounds %s..%s)" % (
+                kind, k, k2, pre, (" hash %s" % sc["hash"]) if uo else "", sorted(impl), sorted(model), lo, hi))
+    ck.extra["count_differential"] = {"scenarios": cases, "with_over_report": over}
+    ck.oblige("corr:count() of the multi containers under one interfering insert: the set of results over all hold points equals the set the CAS-list "
+              "model produces (count operation of CasList.sys), inside the proven bounds lo <= n <= hi (caslist_count_bounds)", "correspondence",
+              not bad, "; ".join(bad)[:900])
 
 
 def make_scenarios(ck, n_uo, n_sl):
@@ -1160,11 +1396,15 @@ def run(ck):
         "proved on the models (any number of threads, every schedule, sequentially consistent interleavings of the traced accesses): the CAS list "
         "(search_after / insert_dummy_node / level walks, try_insert, lookups, traversals), the split-ordered hash table (bucket table, recursive "
         "init_bucket, doubling) and the skip list (levels, max height, bottom-up linking); the split-order arithmetic is proved for all 64-bit values",
-        "partial: for ORDERED MULTI containers `every level is a sub-sequence of the level below` (equal keys ordered by index_number) is not proved "
-        "(skiplist_levels_sublists_partial); it is checked on every replayed trace by the model and by the harness's structure monitor",
+        "ordered multi containers: `every level is a sub-sequence of the level below` is proved (skiplist_levels_sublists: every level strictly sorted by "
+        "(key, index_number)); it is additionally checked on every replayed trace by the model and by the harness's structure monitor",
         "the models are tied to the code by sampled access-by-access trace replay (E-SHIM) and E-PURE, not by proof",
         "segment_table internals (my_segment_table, segment pointers) are traced but not modelled (reported as unmodelled accesses)",
-        "count()/equal_range() of multi containers and lower_bound() are monitored on the implementation; only their prepare_bucket part is replayed",
+        "count()/equal_range() of multi containers: modelled on the CAS list (three walks; caslist_count_bounds: elements present at the begin <= n <= "
+        "equivalent elements at the return + elements of OTHER keys linked meanwhile; count_over_reports: the second term is needed) and tied by a set-level "
+        "differential (all hold points of the counting thread against one interfering insert) plus the implementation-side bound monitor in every run; the "
+        "access-level replay covers only their prepare_bucket part; the over-report is NOT claimed as a violation: the property lists count among the safe "
+        "operations and states no exactness clause; lower_bound() is monitored on the implementation only",
         "release/acquire visibility is not modelled (the shim serialises accesses); the memory order of every traced access is checked against the minimum "
         "the argument needs (acquire loads, release/seq_cst publication)",
         "the bucket count never exceeds 2^63 (63 segment pointers); the model stops doubling there",
@@ -1175,8 +1415,22 @@ def run(ck):
         "table sizing: the bucket-count expressions are regenerated from the header; the float conditions (when to grow) are tied by the E-PURE "
         "differential only — the power-of-two theorem does not depend on them; in the interleaving model a bucket count that would leave the 64-bit "
         "word is not installed (Sizing models the wrap-around to 0 that the code performs for load factors below ~2^-60 x size)",
-        "weak CAS never fails spuriously under the shim; allocation failure and throwing constructors are not exercised"]
-    ck.trusted += ["harness/shim (atomic shim + baton scheduler)", "harness/c12/*.cpp monitors and address canonicalisation (bump arena: no address reuse within a run)",
+        "weak CAS never fails spuriously under the shim",
+        "user functors that throw: the models have a throwing step at every comparator call site of the skip list (descent, found(), re-search after a "
+        "failed upper-level CAS, lookups), at every key_equal call site and the hasher call of the unordered containers, and for the node creation "
+        "(allocator / element constructor) and the head-node allocation of the skip list; insert_throw_safe / splitorder_throw_safe are proved for every "
+        "fault position; WHERE the code deletes a node on an exception path is regenerated from the headers (slFreeOnThrowUnlinked/Linked, "
+        "uoFreeOnThrowUnlinked, the calls that can run user code after the link). Element-constructor and allocator faults of the unordered containers "
+        "(value node, dummy node, bucket segments) and faults inside lower_bound / count of multi containers are exercised by the fault schedules with the "
+        "implementation-side monitors only",
+        "what the UNCHANGED code guarantees when a user functor throws inside insert/emplace (observed, recorded in fault_schedules): the container stays "
+        "valid and memory-safe; the element is absent if the exception came before the node was linked and present if it came after (skip list only: "
+        "comparator call of the re-search); but (1) a node that was created and not linked is neither linked nor deallocated (leaked: skip list on every "
+        "comparator / head-allocation exception, unordered emplace on hasher / key_equal / allocation exceptions, unordered insert(value) on a key_equal "
+        "exception in the retry search), (2) after a skip-list exception behind the link size() is one short and the node is missing from its upper "
+        "levels (lookups still work; unsafe_erase of that element dereferences a null predecessor: outside this property)"]
+    ck.trusted += ["harness/shim (atomic shim + baton scheduler)", "harness/c12/*.cpp monitors and address canonicalisation (bump arena: no address reuse within a run; "
+                   "deallocation marks the record dead)", "checks/c12gen.py throw_policy (which handlers delete the node, which calls after the link can run user code)",
                    "trace replay and first-appearance node renaming in checks/c12.py (sampled correspondence)", "harness/c12/consts.cpp, pure.cpp"]
     gen(ck)
     if not ck.lean_stage():
@@ -1209,6 +1463,10 @@ def run(ck):
     if not quick:
         bad_mon += run_dfs(ck, exes, CORPUS + SWEEP_CORPUS[:2], 3, 60000, stats)
     bad_mon += run_probes(ck, exes)
+    count_differential(ck, exes)
+    bc5, bm5 = run_fault_schedules(ck, exes, stats)
+    bad_corr += bc5
+    bad_mon += bm5
     searched = False
     if (ck.broken() or bad_corr) and not bad_mon:
         # something no longer checks: look harder for a schedule on which the PROPERTY fails on the implementation
@@ -1234,6 +1492,11 @@ def run(ck):
               bool(bad_mon or bad_corr) or (stats["dummy_retry_walked_2plus"] > 0 and stats["sizing_calls_in_threads"] > 0),
               "dummy CAS failures %d, retries that walked past >= 2 nodes %d, sizing calls inside thread programs %d" % (
                   stats["dummy_cas_failures"], stats["dummy_retry_walked_2plus"], stats["sizing_calls_in_threads"]))
+    fs = stats.get("faults", {})
+    ck.oblige("coverage:the fault schedules reached a comparator exception AFTER the level-0 link of a skip-list insert (another thread's taller node linked "
+              "between the search and the upper-level CAS) as well as exceptions of every functor kind before the link", "correspondence",
+              bool(bad_mon or bad_corr) or (fs.get("thrown_after_link", 0) > 0 and all(fs.get("by_functor", {}).get(f, 0) > 0 for f in ("cmp", "hash", "eq", "ctor", "alloc"))),
+              "fault runs %s, fired %s, thrown after the link %s, by functor %s" % (fs.get("runs"), fs.get("fired"), fs.get("thrown_after_link"), fs.get("by_functor")))
     ck.oblige("gen:memory orders of the traced accesses are at least what the argument needs (acquire loads, seq_cst CAS, release publication)",
               "generated", not stats["orders_bad"], "; ".join(sorted(stats["orders_bad"])[:8]))
     ck.oblige("corr:every traced access (list pointers, bucket slots, bucket count, size, level pointers, max height), every operation result and the "
@@ -1242,7 +1505,10 @@ def run(ck):
                   bad_corr[0][2], bad_corr[0][0]["kind"], bad_corr[0][0].get("family"), bad_corr[0][0].get("pre", []), bad_corr[0][0]["progs"], " ".join(bad_corr[0][1]["sched"])))
     ck.oblige("monitor:final contents = successful inserts, one winner per key, find-after-insert, traversals complete/duplicate-free/ordered, raw list "
               "(dummy nodes included) sorted, bucket entries in place, every element reachable from its bucket entry for every bucket count the table had, "
-              "bucket count a power of two, level structure, no deadlock/livelock (random + state-guided sweeps + bounded-preemption DFS)", "correspondence", not bad_mon,
+              "bucket count a power of two, level structure, no deadlock/livelock (random + state-guided sweeps + bounded-preemption DFS); allocator ledger: no node "
+              "is deallocated while reachable from the head (any level, any bucket), none twice, none reachable is dead, clear() + destructor free every node once; "
+              "fault schedules (k-th comparator / hasher / key_equal / element-constructor / allocate call throws): the container stays a sorted duplicate-free "
+              "list = successful inserts + inserts that threw after linking, later operations work", "correspondence", not bad_mon,
               "" if not bad_mon else "%s | %s %s | pre %s | threads %s" % (bad_mon[0][1]["mon"], bad_mon[0][0]["kind"], bad_mon[0][0].get("family"), bad_mon[0][0].get("pre", []), bad_mon[0][0]["progs"]))
     seen = set()
     for sc, r in bad_mon:
